@@ -15,6 +15,7 @@ import os
 import random
 import re
 from dataclasses import dataclass, field
+from pathlib import Path
 from typing import Any
 
 from vf.models import settings as S
@@ -151,7 +152,7 @@ def shards(tier: str, seed: int) -> list[dict[str, Any]]:
 
 def required_reach(tier: str) -> dict[str, int]:
     n = len(_commands())
-    need = {"commands.done": n, "commands.enumerated": n, "reload.roundtrips": 100, "template.keys_checked": 10, "parse.full_tree": 10}
+    need = {"commands.done": n, "commands.enumerated": n, "reload.roundtrips": 100, "reload.fresh-process": 50, "template.keys_checked": 10, "parse.full_tree": 10}
     for bits in range(16):
         need[f"combo.{bits:04b}"] = 1
     for k in KINDS_REQUIRED:
@@ -211,6 +212,8 @@ class Harness:
         self.last_plan: Plan | None = None
         self.base_expected: dict[str, Any] = {}
         self.reload_culprits: dict[str, str] = {}
+        # (what the command stores as run_meta.config -> META.json / database, full dump in this process), re-created in a fresh process later
+        self.stored_samples: list[tuple[Any, Any, Any]] = []
 
     # -- one real parse ----------------------------------------------------------------------
     def parse(self, argv: list[str], env: dict[str, str], toml_text: str, allow_full: bool = True) -> Outcome:
@@ -536,6 +539,14 @@ class OptionRun:
             return
         ctx, cfg = self.ctx, out.cfg
         ctx.reach("reload.roundtrips")
+        if len(self.h.stored_samples) < 6 or self.ctx.rng.random() < 0.02:
+            try:
+                # what the production code really stores for this run (BaseCommand.__init__ builds run_meta from the config)
+                stored_by_command = json.loads(json.dumps(self.h.cmd(cfg).run_meta.config))
+                self.h.stored_samples.append((stored_by_command, json.loads(cfg.model_dump_json()), wit()))
+                ctx.reach("reload.run_meta_config_taken")
+            except Exception:
+                ctx.reach("reload.command_not_instantiable")
         try:
             stored = json.loads(json.dumps(json.loads(cfg.model_dump_json())))  # META.json / run_meta.config
             again = self.h.cfgtype(**stored)
@@ -720,7 +731,52 @@ def run_command(ctx: Any, params: dict[str, Any]) -> None:
             return
         ctx.reach("options.exercised")
         OptionRun(h, d, f"{ctx.seed}/{h.cmdname}/{d.name}", params["rounds"]).run()
+    fresh_process_reload(ctx, h, params["index"])
     ctx.reach("commands.done")
+
+
+def fresh_process_reload(ctx: Any, h: Harness, index: int) -> None:
+    """'every run can be repeated': the config as stored by the command (run_meta.config) must re-create an equal config in ANOTHER
+    process too (a default that differs between processes, e.g. a random seed, must therefore be part of what is stored)."""
+    import subprocess
+    import sys as _sys
+
+    if not h.stored_samples:
+        return
+    samples = h.stored_samples[:12]
+    f = ctx.mkscratch() / f"reload-{index}.json"
+    f.write_text(json.dumps({"index": index, "stored": [x[0] for x in samples]}))
+    try:
+        cp = subprocess.run([_sys.executable, "-m", "vf.checks.c18", "--reload-child", str(f)], cwd=str(Path(__file__).resolve().parents[2]),
+                            capture_output=True, text=True, timeout=120, env={**os.environ, "PYTHONHASHSEED": "1"})
+        got = json.loads(cp.stdout.strip().splitlines()[-1])
+    except Exception as e:  # harness problem, not a verdict
+        ctx.reach("reload.fresh-process.harness-error")
+        return
+    for (stored, full, w), g in zip(samples, got):
+        ctx.reach("reload.fresh-process")
+        if isinstance(g, dict) and "error" in g:
+            ctx.violation("reload/fresh-process/raises", "the configuration stored by the command cannot be fed back to the same command in a new process", {**w, "stored": stored, "error": g["error"][:300]})
+            continue
+        diff = [k for k in full if k in g and g[k] != full[k]] + [k for k in full if k not in g]
+        if diff:
+            ctx.violation("reload/fresh-process/not-equal", "the configuration stored by the command re-creates another configuration in a new process",
+                          {**w, "field": diff[0], "stored_has_field": diff[0] in stored, "before": repr(full.get(diff[0]))[:120], "after": repr(g.get(diff[0]))[:120]})
+
+
+def reload_child(path: str) -> None:
+    from vf import runner
+
+    runner.bootstrap_path()
+    spec = json.loads(Path(path).read_text())
+    _, cmd = _commands()[spec["index"]]
+    out = []
+    for stored in spec["stored"]:
+        try:
+            out.append(json.loads(cmd.CONFIG_TYPE(**stored).model_dump_json()))
+        except Exception as e:
+            out.append({"error": repr(e)})
+    print(json.dumps(out))
 
 
 TEMPLATE_KEY = re.compile(r"^(?:# )?([A-Za-z_][A-Za-z0-9_]*) = ")
@@ -860,3 +916,10 @@ def replay(ctx: Any, witness: dict[str, Any]) -> None:
             OptionRun(h, d, witness.get("vseed", f"{ctx.seed}/{h.cmdname}/{d.name}"), 2).run()
             return
     raise RuntimeError(f"command {witness['command']!r} not in the command tree")
+
+
+if __name__ == "__main__":
+    import sys as _s
+
+    if len(_s.argv) == 3 and _s.argv[1] == "--reload-child":
+        reload_child(_s.argv[2])
